@@ -24,9 +24,11 @@ import (
 	"encoding/hex"
 	"fmt"
 	"math/big"
+	"os"
 	"sort"
 	"sync"
 	"testing"
+	"time"
 
 	"github.com/ethereum/go-ethereum/common"
 	"github.com/ethereum/go-ethereum/core/state"
@@ -671,6 +673,7 @@ func c28Unwrap(ret []byte, levels int) (c28Inner, error) {
 
 func TestVerif_C28(t *testing.T) {
 	mc.Run(t, "C28", func(r *mc.R) {
+		tStart := time.Now()
 		env := c28NewEnv()
 		P := env.progs
 		n := len(P)
@@ -828,7 +831,10 @@ func TestVerif_C28(t *testing.T) {
 				cmu.Unlock()
 			})
 		}
-		if r.Quick() {
+		onlyGrid := os.Getenv("VERIF_C28_PART") == "grid" // diagnostic switch: skip (a) and (b); the run is then reported as not exhaustive
+		if onlyGrid {
+			// skipped
+		} else if r.Quick() {
 			runSeqs([][]int{all, all})
 			runSeqs([][]int{dirt, dirt, all})
 		} else {
@@ -842,7 +848,11 @@ func TestVerif_C28(t *testing.T) {
 			return
 		}
 		// ---- (b) depth
-		r.Parallel(n, func(di int) {
+		nDepth := n
+		if onlyGrid {
+			nDepth = 0
+		}
+		r.Parallel(nDepth, func(di int) {
 			evm := env.newEVM()
 			evm.SetPrecompileCache(pc)
 			defer evm.Release()
@@ -897,8 +907,12 @@ func TestVerif_C28(t *testing.T) {
 		if r.Expired() {
 			return
 		}
+		r.Bound("seconds_sequences_and_depth", fmt.Sprintf("%.1f", time.Since(tStart).Seconds()))
 		// ---- (d) precompile result cache grids
 		c28PrecompileGrid(r, env, base)
+		if onlyGrid {
+			r.NotExhaustive("VERIF_C28_PART=grid: sequence and depth parts skipped")
+		}
 	})
 }
 
@@ -913,7 +927,7 @@ func c28Forwarder() []byte {
 	a := c28New()
 	a.op(CALLDATASIZE).push(32).op(SWAP1, SUB)
 	a.op(DUP1).push(32).push(0).op(CALLDATACOPY)
-	a.push(0).push(0).op(DUP3).push(0).push(0).op(CALLDATALOAD, GAS, STATICCALL)
+	a.push(0).push(0).op(DUP3).push(0).push(0).op(CALLDATALOAD).push(c28PreGas).op(STATICCALL)
 	a.push(0x1000).op(MSTORE)
 	a.op(RETURNDATASIZE).push(0).push(0x1020).op(RETURNDATACOPY)
 	a.op(RETURNDATASIZE).push(0x20).op(ADD).push(0x1000).op(RETURN)
@@ -1129,7 +1143,9 @@ func (a c28PreRes) diff(b c28PreRes) string {
 	return ""
 }
 
-const c28PreGas = 50_000_000
+const c28PreGas = 1_000_000 // gas of every precompile run of the grid (direct and through the forwarder)
+
+const c28FwdGas = 3_000_000
 
 // c28RunPre is the seam below EVM.Call/StaticCall...: RunPrecompiledContract with the given result cache (nil = none).
 func c28RunPre(sdb StateDB, g *c28Grid, rules params.Rules, in []byte, cache *PrecompileCache) c28PreRes {
@@ -1155,6 +1171,7 @@ func c28PrecompileGrid(r *mc.R, env *c28Env, cold []c28Result) {
 	for gi := range grids {
 		g := &grids[gi]
 		name := fmt.Sprintf("%s@%x", g.pre.Name(), g.addr.Big())
+		t0 := time.Now()
 		if _, ok := g.pre.(NormalizingPrecompile); ok {
 			normalising++
 		}
@@ -1214,8 +1231,22 @@ func c28PrecompileGrid(r *mc.R, env *c28Env, cold []c28Result) {
 						cl++ // x and y share a cache entry: y is answered from x's result
 					}
 					if d := c28RunPre(sdb, g, env.rules, g.inputs[yi], cache).diff(base[yi]); d != "" {
-						return fmt.Errorf("%s(%x) after %s(%x) through a shared result cache differs from the run without cache: %s",
-							name, g.inputs[yi], name, g.inputs[xi], d)
+						// name the input whose cache entry answered y: x, or a grid input checked earlier on this cache
+						culprit := "?"
+						if cacheable[yi] {
+							if cacheable[xi] && bytes.Equal(keys[xi], keys[yi]) {
+								culprit = fmt.Sprintf("%x (the warming input)", g.inputs[xi])
+							} else {
+								for j := yi - yi%256; j < yi; j++ {
+									if cacheable[j] && bytes.Equal(keys[j], keys[yi]) {
+										culprit = fmt.Sprintf("%x (checked earlier on this cache)", g.inputs[j])
+										break
+									}
+								}
+							}
+						}
+						return fmt.Errorf("%s(%x) on a result cache warmed by %x differs from the run without cache: %s; it shares the cache key %x with input %s",
+							name, g.inputs[yi], g.inputs[xi], d, keys[yi], culprit)
 					}
 					h++
 				}
@@ -1263,7 +1294,7 @@ func c28PrecompileGrid(r *mc.R, env *c28Env, cold []c28Result) {
 		fbase := make([]c28Result, len(small))
 		for i, in := range small {
 			c28Pristine(bevm)
-			fbase[i] = env.runInput(bevm, c28ForwarderAddr, c28ForwarderAddr, msg(in), c28OuterGas)
+			fbase[i] = env.runInput(bevm, c28ForwarderAddr, c28ForwarderAddr, msg(in), c28FwdGas)
 			want := append(c28Word(1), base[i].out...)
 			if base[i].err != "" {
 				want = c28Word(0)
@@ -1274,7 +1305,7 @@ func c28PrecompileGrid(r *mc.R, env *c28Env, cold []c28Result) {
 			}
 		}
 		check := func(evm *EVM, i int, after string) error {
-			res := env.runInput(evm, c28ForwarderAddr, c28ForwarderAddr, msg(small[i]), c28OuterGas)
+			res := env.runInput(evm, c28ForwarderAddr, c28ForwarderAddr, msg(small[i]), c28FwdGas)
 			if d := res.diff(fbase[i]); d != "" {
 				return fmt.Errorf("forwarder STATICCALL %s(%x) %s differs from its isolated run: %s", name, small[i], after, d)
 			}
@@ -1324,7 +1355,7 @@ func c28PrecompileGrid(r *mc.R, env *c28Env, cold []c28Result) {
 				r.DistinctHash(mc.Hash64("pass" + name + dir))
 			}
 		}
-		r.Bound("grid."+name, fmt.Sprintf("%d inputs, explicit pairs over %d, in-EVM grid %d", len(g.inputs), npairs, len(small)))
+		r.Bound("grid."+name, fmt.Sprintf("%d inputs, explicit pairs over %d, in-EVM grid %d, %.1fs", len(g.inputs), npairs, len(small), time.Since(t0).Seconds()))
 		if r.Expired() {
 			return
 		}
